@@ -520,4 +520,21 @@ def run_release(prog, rep):
     rule.check(mv_releases or own_copy or not mv, 'Attribute|no-leaking-move-assignment', '%s:%s' % (prog.rel(att['file']), att['line']), 'nix::hdf5::Attribute',
                'Attribute declares its copy assignment (no implicit move assignment)' if own_copy else 'H5Object move assignment releases the id it held',
                'Attribute can be move-assigned (no user-declared copy assignment) and H5Object::operator=(H5Object&&) does not release the id the target held: an attribute id assigned over leaks, close() does not sweep attribute ids, libhdf5 keeps the file open and unflushed after close()')
+    # the same for every wrapper (C04j): while the move assignment of H5Object does not release the id its target holds, nothing may call it -
+    # a derived wrapper that forwards its own move assignment to it leaks the overwritten id (optGroup re-resolves its cached group on
+    # every call), and a leaked id on a container group keeps that group - and its hard links - alive after the holder was deleted
+    if mv and not mv_releases:
+        users = []
+        for f in prog.funcs.values():
+            if f.body is None or f.usr == mv[0].usr:
+                continue
+            for c in f.calls():
+                if (c.callee or {}).get('usr') == mv[0].usr:
+                    users.append((f, c))
+        for f, c in sorted(users, key=lambda t: (t[0].file or '', t[1].l or 0)):
+            rule.bad('H5Object::operator=(&&)|called-from|%s' % f.q, rep.where(c), f.label(),
+                     '%s move-assigns through H5Object::operator=(H5Object&&), which overwrites the id the target holds without releasing it: every assignment over a live handle '
+                     'leaks an open id (a leaked id on a container group keeps the unlinked group and its links to other entities alive: a later delete of the target leaves its link count > 0)' % f.q)
+        if not users:
+            rule.ok('H5Object::operator=(&&)|no-caller', rep.where(mv[0]), mv[0].label(), 'the non-releasing move assignment has no caller (all wrappers declare copy assignment only)')
     return rule
